@@ -383,7 +383,7 @@ class PreludeMixin:
         return None
 
     # ------------------------------------------------------------------ container methods (receiver is an lvalue)
-    MUTATORS = {'append', 'extend', 'add', 'discard', 'remove', 'pop', 'update', 'subtract', 'clear', 'insert',
+    MUTATORS = {'setdefault', 'append', 'extend', 'add', 'discard', 'remove', 'pop', 'update', 'subtract', 'clear', 'insert',
                 'setdefault', 'sort'}
 
     def call_container_method(self, e, st, fr, fv):
@@ -492,6 +492,14 @@ class PreludeMixin:
                 if ff is not None:
                     outs.append((ff, ExcVal('KeyError'), None))
                 return outs
+            if meth == 'setdefault':
+                has = ops.dict_has(recv, args[0])
+                dflt = self.coerce_to(st, args[1] if len(args) > 1 else None, k.val)
+                cur = ops.dict_get(recv, args[0])
+                new = ops.dict_set(recv, args[0], dflt)
+                self.fold_update(st, fr, recv, new, args[0], dflt)
+                res = SVal(k, [z3.If(has, a_, b_) for a_, b_ in zip(recv.t, new.t)])
+                return [(st, ops.ite(has, cur, dflt), res)]
             if meth == 'copy':
                 return [(st, recv, None)]
             if meth == 'clear':
